@@ -34,6 +34,10 @@ type qnode struct {
 	// bytes: the result is made from the bytes of strings (byte counts, encodings);
 	// not applied to values holding raw bits that are not UTF-8 (documented difference 4)
 	bytes bool
+	// cmp: the result depends on comparing or ordering strings with each other; not
+	// applied to arrays/objects holding raw bits that are not UTF-8 (distinct byte
+	// strings collapse to the same U+FFFD string in a decode value)
+	cmp bool
 }
 
 // argx: the decode value is used as an argument (`. as $x | ...`)
@@ -46,6 +50,7 @@ func (q qnode) o() qnode  { q.ordfree = true; return q }
 func (q qnode) o1() qnode { q.ordfree1 = true; return q }
 func (q qnode) sk() qnode { q.strkey = true; return q }
 func (q qnode) b() qnode  { q.bytes = true; return q }
+func (q qnode) m() qnode  { q.cmp = true; return q }
 func (q qnode) p(par string) qnode {
 	q.par = par
 	return q
@@ -71,24 +76,24 @@ func family() []qnode {
 		n("tojson", "tojson/0").c().o(),
 		n("tostring", "tostring/0").c().o(),
 		n("tonumber", "tonumber/0").c().o(),
-		n(". == $p").p("p").c(),
-		n(". != $p").p("p"),
-		n(". < $p").p("p").c(),
-		n(". <= $p").p("p"),
-		n(". > $p").p("p"),
-		n(". >= $p").p("p"),
-		n("$p < .").p("p"),
-		n("sort", "sort/0").c().o(),
-		n("unique", "unique/0").c().o(),
-		n("[$p, .] | sort", "sort/0").p("p").c(),
-		n("[$p, ., $p] | unique", "unique/0").p("p"),
-		n("[$p, .] | min", "min/0").p("p"),
-		n("[., $p] | group_by(.)", "group_by/1").p("p"),
+		n(". == $p").p("p").c().m(),
+		n(". != $p").p("p").m(),
+		n(". < $p").p("p").c().m(),
+		n(". <= $p").p("p").m(),
+		n(". > $p").p("p").m(),
+		n(". >= $p").p("p").m(),
+		n("$p < .").p("p").m(),
+		n("sort", "sort/0").c().o().m(),
+		n("unique", "unique/0").c().o().m(),
+		n("[$p, .] | sort", "sort/0").p("p").c().m(),
+		n("[$p, ., $p] | unique", "unique/0").p("p").m(),
+		n("[$p, .] | min", "min/0").p("p").m(),
+		n("[., $p] | group_by(.)", "group_by/1").p("p").m(),
 		n("add", "add/0").c(),
 		n(". + $p").p("p").c().o(),
 		n("$p + .").p("p").o(),
-		n(". - $p").p("p").c().o(),
-		n("$p - .").p("p").o(),
+		n(". - $p").p("p").c().o().m(),
+		n("$p - .").p("p").o().m(),
 		n(". * $p").p("p").c().o(),
 		n("$p * .").p("p").o(),
 		n(". / $p").p("p").c().o(),
@@ -144,17 +149,17 @@ func family() []qnode {
 		n("isnan", "isnan/0").o(),
 		n("isinfinite", "isinfinite/0").o(),
 		n("isnormal", "isnormal/0").o(),
-		n("min", "min/0").o(),
-		n("max", "max/0").o(),
-		n("min_by(.)", "min_by/1").o(),
+		n("min", "min/0").o().m(),
+		n("max", "max/0").o().m(),
+		n("min_by(.)", "min_by/1").o().m(),
 		n("reverse", "reverse/0").o(),
 		n("flatten", "flatten/0").o(),
 		n("any", "any/0").o(),
 		n("all", "all/0").o(),
 		n("walk(.)", "walk/1").o(),
-		n("sort_by(.)", "sort_by/1").o(),
-		n("unique_by(.)", "unique_by/1").o(),
-		n("group_by(.)", "group_by/1").o(),
+		n("sort_by(.)", "sort_by/1").o().m(),
+		n("unique_by(.)", "unique_by/1").o().m(),
+		n("group_by(.)", "group_by/1").o().m(),
 		n("ascii_upcase", "ascii_upcase/0").o(),
 		n(`rtrimstr("c")`, "rtrimstr/1").o(),
 		n(`startswith("a")`, "startswith/1").o(),
@@ -187,14 +192,14 @@ func family() []qnode {
 		n("path(..)", "path/1").o1(),
 		n("[.[]?] | length", "length/0").o(),
 		n("{(.): 1}"),
-		n("contains($p)", "contains/1").p("p").o(),
-		n("inside($p)", "inside/1").p("p").o(),
-		n("index($p)", "index/1").p("p"),
-		n("indices($p)", "indices/1").p("p"),
+		n("contains($p)", "contains/1").p("p").o().m(),
+		n("inside($p)", "inside/1").p("p").o().m(),
+		n("index($p)", "index/1").p("p").m(),
+		n("indices($p)", "indices/1").p("p").m(),
 		n("ltrimstr($p)", "ltrimstr/1").p("p").o(),
 		n("startswith($p)", "startswith/1").p("p").o(),
-		n("IN($p, 1)", "IN/1").p("p"),
-		n(". as $x | $p | IN($x)", "IN/1").p("p"),
+		n("IN($p, 1)", "IN/1").p("p").m(),
+		n(". as $x | $p | IN($x)", "IN/1").p("p").m(),
 
 		// --- the decode value as an argument of a standard function
 		n(`. as $x | [10,20,30] | .[$x]`),
